@@ -52,7 +52,11 @@ Definition mk_frags (pc : N) (l : list (bytes * N)) : list frag :=
 
 (* DIMSEMessage.encode(pc_id, max_pdu_length): command fragments (1 / 3) then, if the data set
    is truthy, data fragments (0 / 2).  `data = []` stands for "no data set" (None or b''). *)
+(* DIMSEMessage.encode refuses (in the caller's thread) a maximum that cannot carry a fragment *)
+Definition unusable_max (m : N) : bool := (0 <? m) && (m <? 7).
+
 Definition dimse_encode (cmd data : bytes) (pc m : N) : result (list frag) :=
+  if unusable_max m then Err DimseError else
   let* cs := fragment cmd m 1 3 in
   let* ds := (match data with [] => Ok [] | _ => fragment data m 0 2 end) in
   Ok (mk_frags pc cs ++ mk_frags pc ds).
